@@ -241,7 +241,7 @@ SfsIterLines(c, it, r) ==
     LET n  == c.cmd.split
         nl == (Len(it) + n - 1) \div n
     IN  <<W_slashes \o <<"i", "t">> \o IntText(r)>> \o c.cmd.hdr \o
-        [q \in 1..nl |-> Cat([j \in ((q - 1) * n + 1)..(IF q * n < Len(it) THEN q * n ELSE Len(it)) |-> SfsListingText(it[j])])]
+        [q \in 1..nl |-> Cat([j \in 1..((IF q * n < Len(it) THEN q * n ELSE Len(it)) - (q - 1) * n) |-> SfsListingText(it[(q - 1) * n + j])])]
 SfsWrite(c) == <<SfsCmdLine(c), c.cmd.seeds, c.cmd.third>> \o Cat([r \in 1..Len(c.its) |-> SfsIterLines(c, c.its[r], r)])
 
 SfsParseCmd(line) ==
